@@ -30,7 +30,7 @@ func verifCount(idx *Index, e Expression) uint64 {
 // synchronisation points (schedule mode) plus the lockset discipline over all accesses.
 func HarnessC18AddRow() {
 	big := verifBool("big-writer")
-	k := 1 + verifChoice("rows-per-goroutine", 2)
+	k := 1 + verifChoice("rows-per-goroutine", 2+verifTier())
 	out := verifTempPath("c18.updog")
 	var w verifWriter
 	var db, tempDB *bbolt.DB
@@ -59,7 +59,16 @@ func HarnessC18AddRow() {
 	}
 	tag := func(g, i int) string { return string([]byte{'g', byte('0' + g), byte('0' + i)}) }
 	val := func(g, i int) string { return []string{"x", "y"}[(g+i)%2] }
+	// the second goroutine's rows may be rows without any value (they only take a row id)
+	emptyRows := verifBool("second-goroutine-adds-empty-rows")
+	rowOf := func(g, i int) map[string]string {
+		if emptyRows && g == 1 {
+			return map[string]string{}
+		}
+		return map[string]string{"t": tag(g, i), "a": val(g, i)}
+	}
 	var wg sync.WaitGroup
+	verifPreemptions(2 + verifTier())
 	verifSchedule(true)
 	verifLockset(true)
 	for g := 0; g < G; g++ {
@@ -67,7 +76,7 @@ func HarnessC18AddRow() {
 		go func(g int) {
 			defer wg.Done()
 			for i := 0; i < k; i++ {
-				id, err := w.AddRow(map[string]string{"t": tag(g, i), "a": val(g, i)})
+				id, err := w.AddRow(rowOf(g, i))
 				if err != nil {
 					panic(err)
 				}
@@ -101,6 +110,9 @@ func HarnessC18AddRow() {
 		return
 	}
 	for g := 0; g < G; g++ {
+		if emptyRows && g == 1 {
+			continue
+		}
 		for i := 0; i < k; i++ {
 			t := &ExprEqual{Column: "t", Value: tag(g, i)}
 			verifAssert(verifCount(idx, t) == 1, "C18: every added row appears exactly once")
@@ -113,8 +125,14 @@ func HarnessC18AddRow() {
 	verifAssert(verifCount(idx, &ExprNot{Expr: &ExprEqual{Column: "a", Value: "nope"}}) == uint64(n), "C18: the index must hold exactly one row per AddRow call")
 	// the schema is the one a sequential insertion produces: columns a and t, every value added
 	wantA := []string{"x", "y"}
+	if emptyRows && k == 1 {
+		wantA = []string{"x"} // only row (0,0) carries a value
+	}
 	var wantT []string
 	for g := 0; g < G; g++ {
+		if emptyRows && g == 1 {
+			continue
+		}
 		for i := 0; i < k; i++ {
 			wantT = append(wantT, tag(g, i)) // g00 g01 g10 g11: ascending
 		}
@@ -133,7 +151,7 @@ func HarnessC18AddRow() {
 	verifAssert(ok, "C18: the schema of the flushed index is not the one a sequential insertion of the same rows produces")
 	// and grouping by the tag column finds every row
 	res, err := idx.Execute(&Query{Expr: &ExprNot{Expr: &ExprEqual{Column: "a", Value: "nope"}}, GroupBy: []string{"t"}})
-	verifAssert(err == nil && res != nil && len(res.Groups) == n, "C18: grouping the flushed index by the tag column must yield one group per added row")
+	verifAssert(err == nil && res != nil && len(res.Groups) == len(wantT) && res.Count == uint64(n), "C18: grouping the flushed index by the tag column must yield one group per added row that has a tag, and count every row")
 	idx.Close()
 	verifReach("end")
 }
